@@ -1373,7 +1373,31 @@ def stage_canon(ctx, env, only=None):
         if only and label not in only:
             continue
         rng = ctx.rng("canon/" + label)
-        for _ in range(n):
+        for it in range(n):
+            if it % 3 == 0:
+                # directed: a sum of products over few variables, so that monomials share leading
+                # factors and differ in one factor or one power only
+                vs = TYVARS[ty]
+                mons = []
+                for _ in range(rng.randint(2, 4)):
+                    fs = [("v", rng.choice(vs)) for _ in range(rng.randint(1, 3))]
+                    m = fs[0]
+                    for f in fs[1:]:
+                        m = ("*", m, f)
+                    if rng.random() < 0.3:
+                        m = ("*", ("c", rng.choice([2, 3])), m)
+                    mons.append(m)
+                a = mons[0]
+                for m in mons[1:]:
+                    a = ("+", a, m)
+                rng.shuffle(mons)
+                b0 = mons[0]
+                for m in mons[1:]:
+                    b0 = ("+", b0, m)
+                b = rearrange(rng, b0, ty, p=0.4)
+                t1, t2 = to_term(env, a, ty), to_term(env, b, ty)
+                ok = canon_pair(env, ctx, label, ce, t1, t2, "rearrangements of one polynomial")
+                continue
             a = gen_arith(rng, ty, rng.randint(1, 4), ops=ops, atoms=(ty != "int"))
             b = rearrange(rng, a, ty, p=rng.choice([0.3, 0.6, 0.9]))
             t1, t2 = to_term(env, a, ty), to_term(env, b, ty)
@@ -1783,4 +1807,28 @@ MANIFEST = {
             "term_ord.fast_compare as the order. Integer and real normalisers and proplogic.norm_full are covered by the oracle only (not modelled).",
     "design_ref": "DESIGN.md 4/C10",
 }
-FINDINGS = []
+FINDINGS = [
+    {"status": "fixed", "key": "data.real.real_norm_conv:noncanonical", "commit": "fixes/C10-1.patch",
+     "what": "real_norm_conv (and the real_norm macro's can_eval) gave x*y + x*z and x*z + x*y different normal forms: "
+             "util.poly.compare_fst compared only the first factor and ignored powers"},
+    {"status": "fixed", "key": "real_norm-macro:rejects-equal-polynomials", "commit": "fixes/C10-1.patch",
+     "what": "real_norm rejected x*y + x*z = x*z + x*y (same cause)"},
+    {"status": "fixed", "key": "data.integer.int_norm_conv:eval-differs", "commit": "fixes/C10-2.patch",
+     "what": "int_norm_conv.eval reported from_poly(convert_to_poly(t)), which differs from the proved normal form on non-linear "
+             "terms and raised TypeError on powers (int_power(base, n)); e.g. l + l - (l + j) + 0 + -(3 + j) * j"},
+    {"status": "fixed", "key": "data.integer.simp_full:noncanonical", "commit": "fixes/C10-3.patch",
+     "what": "integer normaliser: j * j normalised to j ^ (1 + 1) but j ^ 2 stayed (exponent sum evaluated with int_eval_conv)"},
+    {"status": "fixed", "key": "data.integer.int_norm_conv:noncanonical", "commit": "fixes/C10-3.patch",
+     "what": "same cause, through int_norm_conv"},
+    {"status": "fixed", "key": "data.integer.int_neq_false_conv:lhs-differs", "commit": "fixes/C10-4.patch",
+     "what": "int_neq_false_conv on (-3 + 2) * (1 + 1) = 0 returned -2 = 0 <--> false (left side is not the input)"},
+    {"status": "fixed", "key": "data.proplogic.norm_full:noncanonical", "commit": "fixes/C10-5.patch",
+     "what": "proplogic.norm_full: (D | A) | ~B | ~D gave A | D | ~B | ~D or A | true depending on the arrangement "
+             "(complement only looked for at the head of the sorted tail)"},
+    {"status": "fixed", "key": "data.proplogic.norm_full:not-idempotent", "commit": "fixes/C10-5.patch",
+     "what": "proplogic.norm_full: A | true was a normal form that normalised further to true"},
+    {"status": "fixed", "key": "data.integer.int_gcd_compares:crash:IndexError", "commit": "fixes/C10-6.patch",
+     "what": "int_gcd_compares raised IndexError on 2 * l - -1 * l <= 3 * l - 4 * l + 4 * l + -3 (variables cancel)"},
+    {"status": "fixed", "key": "data.real.real_power_conv:crash:ValueError", "commit": "fixes/C10-7.patch",
+     "what": "real_power_conv raised ValueError (sympy factorint) on (1 / 4) ^ (1 / 2)"},
+]
